@@ -15,8 +15,8 @@ import sys, os, json, time, random, subprocess, hashlib, re, fcntl, traceback, g
 VERIF = os.path.dirname(os.path.dirname(os.path.abspath(__file__)))
 REPO = os.environ.get("IOFLO_REPO", "/repo")
 LEAN = os.path.join(VERIF, "lean")
-DRIVER = os.path.join(LEAN, ".lake", "build", "bin", "driver")
-AUDIT = os.path.join(LEAN, ".lake", "build", "bin", "audit")
+BIN = os.path.join(LEAN, ".lake", "build", "bin")
+AUDIT = os.path.join(BIN, "audit")
 EVIDENCE = os.path.join(VERIF, "evidence")
 REPLAYS = os.path.join(VERIF, "replays")
 SCRATCH = os.path.join(VERIF, ".scratch")
@@ -141,7 +141,7 @@ class Driver:
         for l in lines:
             if "\n" in l:
                 raise Infra("newline inside request line: %r" % l)
-        p = subprocess.run([DRIVER, self.engine], input="\n".join(lines) + "\n",
+        p = subprocess.run([os.path.join(BIN, "drv-" + self.engine)], input="\n".join(lines) + "\n",
                            stdout=subprocess.PIPE, stderr=subprocess.PIPE, text=True, timeout=3600)
         if p.returncode != 0:
             raise Infra("driver %s failed rc=%s: %s" % (self.engine, p.returncode, p.stderr[-2000:]))
@@ -274,13 +274,11 @@ def stage_A(chk, tier, ev):
     t0 = time.time()
     if chk.GENERATED:
         chk.translate()
-    targets = list(chk.LEAN_MODULES) + ["driver", "audit"]
+    targets = list(chk.LEAN_MODULES) + ["audit"] + (["drv-" + chk.ENGINE] if chk.ENGINE else [])
     clean = chk.LEAN_MODULES if tier == "thorough" else ()
     ok, log = lake_build(targets, clean_modules=clean)
     cmd = "cd lean && lake build " + " ".join(targets)
     if not ok:
-        if not os.path.exists(DRIVER) and not chk.LEAN_MODULES:
-            raise Infra("lake build failed: " + log[-3000:])
         errs = [l for l in log.splitlines() if "error" in l][:20]
         broken.append({"kind": "build", "what": cmd, "errors": errs})
     thms, n_obl, n_ok, axioms_seen = [], 0, 0, set()
@@ -434,8 +432,8 @@ def run_check(chk, tier, seed):
 
     # ---- stage A
     broken = stage_A(chk, tier, ev)
-    if not os.path.exists(DRIVER):
-        raise Infra("driver executable missing after build")
+    if chk.ENGINE and not os.path.exists(os.path.join(BIN, "drv-" + chk.ENGINE)):
+        raise Infra("driver executable drv-%s missing after build" % chk.ENGINE)
 
     # ---- stage B
     n = chk.N_QUICK if tier == "quick" else chk.N_THOROUGH
